@@ -74,6 +74,48 @@ Theorem C03g_link_deriv_class :
 Proof. exact link_deriv_class. Qed.
 Print Assumptions C03g_link_deriv_class.
 
+Theorem C03g_link_re_empty_complement :
+  forall e : RE, M_RE_empty_complement e = Some (pempty_complement (rcls (conv_re e))).
+Proof. exact link_re_empty_complement. Qed.
+Print Assumptions C03g_link_re_empty_complement.
+
+Theorem C03g_link_re_num_deriv_classes :
+  forall e : RE, M_RE_num_deriv_classes e = Some (plen (rcls (conv_re e))).
+Proof. exact link_re_num_deriv_classes. Qed.
+Print Assumptions C03g_link_re_num_deriv_classes.
+
+Theorem C03g_link_re_valid_class_id :
+  forall (e : RE) (c : ClassId),
+       M_RE_valid_class_id e c = Some (pvalid (rcls (conv_re e)) (convc c)).
+Proof. exact link_re_valid_class_id. Qed.
+Print Assumptions C03g_link_re_valid_class_id.
+
+Theorem C03g_link_re_is_empty :
+  forall e : RE, M_RE_is_empty e = Some (is_empty_node (conv_re e)).
+Proof. exact link_re_is_empty. Qed.
+Print Assumptions C03g_link_re_is_empty.
+
+Theorem C03g_link_re_pick_class_rep :
+  forall (e : RE) (c : ClassId), M_RE_pick_class_rep e c = ppick (rcls (conv_re e)) (convc c).
+Proof. exact link_re_pick_class_rep. Qed.
+Print Assumptions C03g_link_re_pick_class_rep.
+
+Theorem C03g_link_re_class_of_char :
+  forall (e : RE) (x : N),
+       option_map convc
+         (M_RE_class_of_char (S (length (CharPartition_list (RE_deriv_class e)))) e x) =
+       pclass_of_char (rcls (conv_re e)) x.
+Proof. exact link_re_class_of_char. Qed.
+Print Assumptions C03g_link_re_class_of_char.
+
+Theorem C03g_link_re_class_of_set :
+  forall (e : RE) (s : CharSet),
+       option_map convres
+         (M_RE_class_of_set (S (length (CharPartition_list (RE_deriv_class e)))) e s) =
+       pclass_of_set (rcls (conv_re e)) (conv s).
+Proof. exact link_re_class_of_set. Qed.
+Print Assumptions C03g_link_re_class_of_set.
+
 (* ---- recomputed attributes of a well-formed term are the cached ones; the nullable test is exact ---- *)
 
 Theorem C03g_is_nullable_cached :
